@@ -150,7 +150,7 @@ def check_ext_numbering(ctx, w, fn):
                 got_desc.append('const-under-precondition')
                 continue
             if want_fallback:
-                ok = _is_fallback(ret, fallback)
+                ok = _is_fallback(ret, fallback, f.node)
             else:
                 ok = expr.nfs(ret, expr.FEnv(f.node)) == field and not _has_call(ret)
             got_desc.append(ast.unparse(ret) if ret is not None else 'None')
@@ -184,7 +184,7 @@ def _has_call(n):
     return any(isinstance(x, ast.Call) for x in ast.walk(n))
 
 
-def _is_fallback(ret, fallback):
+def _is_fallback(ret, fallback, fnode=None):
     """X(0)['<fallback>'] with X in {_get_section_header, get_section}"""
     if not (isinstance(ret, ast.Subscript) and isinstance(ret.slice, ast.Constant) and ret.slice.value == fallback):
         if isinstance(ret, ast.Attribute) and ret.attr == fallback:
@@ -193,6 +193,12 @@ def _is_fallback(ret, fallback):
             return False
     else:
         base = ret.value
+    if isinstance(base, ast.Name) and fnode is not None:
+        # local alias of the header: `header = self._get_section_header(0)` (single assignment), possibly None-tested in between
+        vals = [st.value for st in ast.walk(fnode) if isinstance(st, ast.Assign) and len(st.targets) == 1 and
+                isinstance(st.targets[0], ast.Name) and st.targets[0].id == base.id]
+        if len(vals) == 1:
+            base = vals[0]
     if not isinstance(base, ast.Call):
         return False
     nm = dispatch.callee_name(base)
@@ -596,7 +602,8 @@ MUTANTS = [
     ('phnum-le', E, "self['e_phnum'] < 0xffff", "self['e_phnum'] <= 0xffff", 'E-ii'),
     ('phnum-fallback', E, "return self.get_section(0)['sh_info']", "return self.get_section(0)['sh_link']", 'E-ii'),
     ('shnum-escape', E, "if self['e_shnum'] == 0:", "if self['e_shnum'] == 0xffff:", 'E-ii'),
-    ('shstrndx-header1', E, "return self._get_section_header(0)['sh_link']", "return self._get_section_header(1)['sh_link']", 'E-ii'),
+    ('shstrndx-header1', E, "            header = self._get_section_header(0)\n            if header is None:", "            header = self._get_section_header(1)\n            if header is None:", 'E-ii'),
+    ('shstrndx-info', E, "            return header['sh_link']", "            return header['sh_info']", 'E-ii'),
     ('stride-sizeof', E, "return self['e_shoff'] + n * shentsize", "return self['e_shoff'] + n * self.structs.Elf_Shdr.sizeof()", 'I-STRIDE'),
     ('stride-phoff', E, "return self['e_phoff'] + n * phentsize", "return self['e_shoff'] + n * phentsize", 'I-STRIDE'),
     ('guard-dropped', E, "shentsize < self.structs.Elf_Shdr.sizeof()", "shentsize < 0", 'I-STRIDE'),
